@@ -399,15 +399,19 @@ def strOfGroup (g : List Tok) : String :=
 
 /-- the prefix: `pre` sequential exchanges (start, correct reply, return), summarised per
     connection as (queries seen, highest wire id + 1, no id seen twice) plus the number of
-    exchanges that did not return their own reply with their own ID. -/
+    exchanges that returned a message other than their own reply with their own ID, and the
+    number that returned an error. -/
 structure PreSum where
   conns : List (Nat × Nat × Bool)
+  /-- exchanges that returned a message that was not their own reply with their own ID -/
   bad : Nat
+  /-- exchanges that returned an error -/
+  err : Nat
   deriving DecidableEq, Repr
 
 def strOfPre (p : PreSum) : String :=
   let cs := p.conns.map fun (n, m, u) => s!"{n}:{m}:{strOfBool u}"
-  (if cs.isEmpty then "-" else "+".intercalate cs) ++ s!";{p.bad}"
+  (if cs.isEmpty then "-" else "+".intercalate cs) ++ s!";{p.bad};{p.err}"
 
 def preConnOfChars (x : List Char) : Option (Nat × Nat × Bool) :=
   match natsOf x with
@@ -416,25 +420,29 @@ def preConnOfChars (x : List Char) : Option (Nat × Nat × Bool) :=
 
 def preOfChars (cs : List Char) : Option PreSum :=
   match splitC ';' cs with
-  | [a, b] => do
+  | [a, b, e] => do
     let bad ← natOfChars b
+    let err ← natOfChars e
     let conns ← if a = ['-'] then some [] else (splitC '+' a).mapM preConnOfChars
-    pure ⟨conns, bad⟩
+    pure ⟨conns, bad, err⟩
   | _ => none
 
 /-- model of the prefix: the pool hands out the newest connection while `Status().Available`,
     else dials; each exchange is `Reserve`/`addQueueC`/reply/`deleteQueueC`. Returns the
     connections (oldest first). -/
+def preStep (cs : List Conn) (cur : Conn) : List Conn :=
+  match cur.addQueueC 0 with
+  | (c', some q) => cs ++ [c'.deleteQueueC q]
+  | (c', none) => cs ++ [c']      -- not reachable: `Available` was just checked
+
 def preRun : Nat → List Conn → List Conn
   | 0, cs => cs
   | n + 1, cs =>
-    let (cs, cur) :=
-      match cs.getLast? with
-      | some c => if !c.status.1 && c.status.2 then (cs.dropLast, c) else (cs, ({} : Conn).reserve)
-      | none => (cs, ({} : Conn).reserve)
-    match cur.addQueueC 0 with
-    | (c', some q) => preRun n (cs ++ [c'.deleteQueueC q])
-    | (c', none) => preRun n (cs ++ [c'])      -- not reachable: `Available` was just checked
+    match cs.getLast? with
+    | some c =>
+      if !c.status.1 && c.status.2 then preRun n (preStep cs.dropLast c)
+      else preRun n (preStep cs ({} : Conn).reserve)
+    | none => preRun n (preStep cs ({} : Conn).reserve)
 
 structure RunSt where
   s : State
@@ -546,6 +554,30 @@ def qKey : Tok → Nat × Nat
   | .q _ c id => (c, id)
   | _ => (0, 0)
 
+/-- every victim leaves through `<-c.ctx.Done()` and runs its deferred delete -/
+def killVictims (cfg : Cfg) (r : RunSt) (victims : List Nat) : RunSt :=
+  victims.foldl (fun (r : RunSt) e => { r with s := step cfg (step cfg r.s (.dead e)) (.delQ e) }) r
+
+def giveUpAll (cfg : Cfg) (r : RunSt) (quit : List Nat) : RunSt :=
+  quit.foldl (fun (r : RunSt) e => { r with s := step cfg r.s (.giveUp e) }) r
+
+/-- the server closes connection `c` -/
+def killConn (cfg : Cfg) (r : RunSt) (known : List Nat) (c : Nat) (g : List Tok) : RunSt × List Tok :=
+  let r1 : RunSt := { r with s := step cfg r.s (.close c), killed := c :: r.killed }
+  let victims := known.filter (isWaitingOn r1.s c)
+  let r2 := killVictims cfg r1 victims
+  -- retry or give up: the observed decision, else ExchangeContext's rule
+  let retry := victims.filter fun e =>
+    match findQ g e with
+    | some _ => true
+    | none => if g.contains (.err e false) then false
+              else !r2.newConn.contains e && (r2.retries.filter (· == e)).length < 5
+  let quit := victims.filter fun e => !retry.contains e
+  let r3 := giveUpAll cfg r2 quit
+  let r4 : RunSt := { r3 with retries := retry ++ r3.retries }
+  let res := startGroup cfg r4 known retry g
+  (res.1, [.killed c] ++ quit.map (fun e => Tok.err e false) ++ res.2)
+
 def runOp (cfg : Cfg) (r : RunSt) (known : List Nat) (op : Op) (g : List Tok) : RunSt × List Tok :=
   match op with
     | .start e _ => startGroup cfg r known [e] g
@@ -564,25 +596,7 @@ def runOp (cfg : Cfg) (r : RunSt) (known : List Nat) (op : Op) (g : List Tok) : 
         let s3 := step cfg s2 (.giveUp e)
         ({ r with s := s3 }, [.err e true])
       | _ => (r, [])
-    | .kill c =>
-      if c < r.nconns && !r.killed.contains c then
-        let r := { r with s := step cfg r.s (.close c), killed := c :: r.killed }
-        let victims := known.filter (isWaitingOn r.s c)
-        -- every victim leaves through `<-c.ctx.Done()` and runs its deferred delete
-        let r := victims.foldl (fun (r : RunSt) e =>
-          { r with s := step cfg (step cfg r.s (.dead e)) (.delQ e) }) r
-        -- retry or give up: the observed decision, else ExchangeContext's rule
-        let retry := victims.filter fun e =>
-          match findQ g e with
-          | some _ => true
-          | none => if g.contains (.err e false) then false
-                    else !r.newConn.contains e && (r.retries.filter (· == e)).length < 5
-        let quit := victims.filter fun e => !retry.contains e
-        let r := quit.foldl (fun (r : RunSt) e => { r with s := step cfg r.s (.giveUp e) }) r
-        let r := { r with retries := retry ++ r.retries }
-        let (r, qs) := startGroup cfg r known retry g
-        (r, [.killed c] ++ quit.map (fun e => Tok.err e false) ++ qs)
-      else (r, [.nokill])
+    | .kill c => if c < r.nconns && !r.killed.contains c then killConn cfg r known c g else (r, [.nokill])
 
 def opExchanges : Op → List (Nat × Nat)
   | .start e cid => [(e, cid)]
@@ -624,6 +638,14 @@ def strOfEv : Ev → String
   | .ret e none => s!"ret-e{e}-error"
   | .ret e (some (mid, p)) => s!"ret-e{e}-ID{mid}-p{p}"
 
+/-- configuration and initial state of a script: the connections left by the prefix -/
+def scriptCfg (cids : List (Nat × Nat)) (pconns : List Conn) : Cfg :=
+  ⟨lookupNat cids, fun c => (pconns.getD c {}).nextQid⟩
+
+def scriptInit (pconns : List Conn) : State :=
+  { conns := fun c => pconns.getD c {}, chans := fun _ => .empty, nchan := 0,
+    pcs := fun _ => .idle, hist := [], taken := [] }
+
 def kvChars (toks : List String) (key : String) : Option (List Char) := (kvGet toks key).map String.toList
 
 def run (case impl : String) : String × String :=
@@ -633,13 +655,12 @@ def run (case impl : String) : String × String :=
     let cids := ops.flatMap opExchanges
     let known := cids.map (·.1)
     let pconns := preRun pre []
-    let base := fun c => (pconns.getD c {}).nextQid
-    let cfg : Cfg := ⟨lookupNat cids, base⟩
-    let s0 : State := { init cfg with conns := fun c => pconns.getD c { nextQid := 0 } }
+    let cfg : Cfg := scriptCfg cids pconns
+    let s0 : State := scriptInit pconns
     let itoks := words impl
     let ipre := (kvChars itoks "pre").bind preOfChars
     let ilog := (kvChars itoks "log").bind fun cs => (splitC '|' cs).mapM groupOfChars
-    let mpre : PreSum := ⟨pconns.map fun c => (c.nextQid, c.nextQid, true), 0⟩
+    let mpre : PreSum := ⟨pconns.map fun c => (c.nextQid, c.nextQid, true), 0, 0⟩
     let r0 : RunSt := ⟨s0, pconns.length, [], [], []⟩
     let mlog := runOps cfg known r0 ops (ilog.getD [])
     let mout := s!"pre={strOfPre mpre} log={"|".intercalate (mlog.map strOfGroup)}"
